@@ -1,15 +1,18 @@
 #include <occa/internal/core/device.hpp>
 #include <occa/internal/core/stream.hpp>
+#include <occa/internal/utils/verif.hpp>
 
 namespace occa {
   modeStream_t::modeStream_t(modeDevice_t *modeDevice_,
                              const occa::json &properties_) :
     properties(properties_),
     modeDevice(modeDevice_) {
+    OCCA_VERIF_CREATED(kStream);
     modeDevice->addStreamRef(this);
   }
 
   modeStream_t::~modeStream_t() {
+    OCCA_VERIF_DESTROYED(kStream);
     // NULL all wrappers
     while (streamRing.head) {
       stream *mem = (stream*) streamRing.head;
